@@ -865,7 +865,7 @@ def _iso_verdict(text, want, got) -> str:
     return "" if ok else f"{text!r} -> {got!r} (expected {want})"
 
 
-def pyo3_models() -> list:
+def pyo3_models(mir=None) -> list:
     """what the pyo3 functions the crate's Python layer ends in stand for, for the MIR evaluator: the constructors of the standard library's
     date / time / datetime (a ValueError of the constructor is the Err the binding returns), Py::new / to_object / downcast_bound hand the value on"""
     import datetime as _dt
@@ -878,6 +878,17 @@ def pyo3_models() -> list:
         t = t.get() if isinstance(t, Ref) else t
         if not isinstance(t, Struct) or "offset" not in t.names:
             raise core.Unsupported("tzinfo handed to the constructor is not a FixedTimezone of the crate")
+        if mir is not None:
+            # what Python sees of the zone is what its utcoffset() method answers: the crate's own method, evaluated on its MIR
+            fns = [f_ for n_, f_ in mir.fns.items() if n_.endswith("::utcoffset") and "timezone" in n_ and "__pymethod" not in n_]
+            if len(fns) == 1:
+                from .. import mirexec
+                M = mirexec.Machine(mir, {})
+                M.ext = [(r"PyDelta::new_bound$", lambda py, d, s_, us, norm: Enum("Ok", [_dt.timedelta(days=d, seconds=s_, microseconds=us)]))]
+                r = M.run(fns[0], [Ref([t], 0), Opaque(), Ref([None], 0)])
+                if not (isinstance(r, Enum) and r.variant == "Ok" and isinstance(r.payload[0], _dt.timedelta)):
+                    raise core.Unsupported(f"FixedTimezone.utcoffset() answers {r!r}")
+                return _dt.timezone(r.payload[0])
         return _dt.timezone(_dt.timedelta(seconds=t.get("offset")))
 
     def guard(f):
@@ -910,7 +921,7 @@ def _rs_iso_tabulate(ctx, mir) -> None:
         return
     sf = mirsym.struct_fields_from_source((core.REPO / rel).read_text())
 
-    ext = pyo3_models()
+    ext = pyo3_models(mir)
     bad, n = [], 0
     try:
         f = mir.fn("parse_iso8601")
